@@ -127,12 +127,27 @@ def main(ctx, replay=None):
             ctx.count(desc)
             if n < 2:
                 ctx.sample(desc)
+            # one data set in four is calculated with the package's logger at DEBUG level (what `cij run --debug DEBUG` sets): logging is not input
+            import logging
+            lg = logging.getLogger("cij")
+            old_level, verbose = lg.level, bool(n % 4 == 2)
+            old_prop = lg.propagate
+            if verbose:
+                lg.setLevel(logging.DEBUG)
+                lg.propagate = False                 # (enabled, but nothing is printed into the check's own output)
+                if not any(isinstance(h, logging.NullHandler) for h in lg.handlers):
+                    lg.addHandler(logging.NullHandler())
+                desc["logger"] = "DEBUG"
             try:
                 calc = run(sp)
             except Exception as ex:
+                lg.setLevel(old_level)
+                lg.propagate = old_prop
                 ctx.violation(f"Calculator failed on a well-formed synthetic data set ({kind} {arg}): {ex!r}", {**desc, "dir": str(d)},
                               {"clause": "completes", "exc": type(ex).__name__})
                 continue
+            lg.setLevel(old_level)
+            lg.propagate = old_prop
             check_case(ctx, ds, calc, desc, insts)
         # T: the order in which the real constructor runs its stages is a behaviour of Pipeline.tla (partial order of stages)
         from cv.trace import validate_trace
